@@ -2,7 +2,9 @@ import PdfVerif.Model.CPYCopier
 /-!
 Line-protocol handler for C11 (key `CPY`).
 
-  CPY run <x|a> n0=<N> G<num>,<gen>:<o|->:<node> … P<op> …
+  CPY run <x|a> n0=<N> tv=<V> G<num>,<gen>:<o|->:<node> … P<op> …
+
+  tv:    /V of the encryption dictionary of the target (0: not encrypted)
 
   node:  O<objwire> | S<e|p>:<dictwire>:<hexdata> | B | I
   op:    cr<num>,<gen> | cg<num>,<gen> | co<objwire> | rn<num>,<gen>:<objwire> | rt<num>,<gen>:<k>
@@ -77,6 +79,7 @@ def parseOp (tok : String) : Option Op :=
 
 structure Input where
   n0 : Nat
+  tv : Nat
   graph : Graph
   ops : List Op
 
@@ -86,6 +89,10 @@ def parseInput : List String → Input → Option Input
     if tok.startsWith "n0=" then
       match (dropS tok 3).toNat? with
       | some n => parseInput rest { acc with n0 := n }
+      | none => none
+    else if tok.startsWith "tv=" then
+      match (dropS tok 3).toNat? with
+      | some n => parseInput rest { acc with tv := n }
       | none => none
     else if tok.startsWith "G" then
       match parseEntry tok with
@@ -188,10 +195,10 @@ def okRoots : List (Except CErr Ref) → List Ref
 def handle (args : List String) : String :=
   match args with
   | "run" :: ex :: toks =>
-    match parseInput toks { n0 := 1, graph := [], ops := [] } with
+    match parseInput toks { n0 := 1, tv := 0, graph := [], ops := [] } with
     | none => "bad-input"
     | some inp =>
-      let s0 : St := { trans := [], next := inp.n0, puts := [] }
+      let s0 : St := { trans := [], next := inp.n0, puts := [], tgtV := inp.tv }
       let (roots, s) := runOpsE (fuelFor inp.graph inp.ops) inp.graph s0 [] inp.ops
       let exact := ex == "x"
       let rs := ";".intercalate (roots.map (showRoot exact))
